@@ -370,7 +370,9 @@ class Engine(object):
         st.assume(forall([j], z3.Implies(z3.And(0 <= j, j < na), z3.Select(er, j) == z3.Select(ea, j)),
                             patterns=[z3.Select(er, j)]),
                   forall([j], z3.Implies(z3.And(na <= j, j < na + nb), z3.Select(er, j) == z3.Select(eb, j - na)),
-                            patterns=[z3.Select(er, j)]))
+                            patterns=[z3.Select(er, j)]),
+                  forall([j], z3.Implies(z3.And(0 <= j, j < nb), z3.Select(eb, j) == z3.Select(er, j + na)), patterns=[z3.Select(eb, j)]),
+                  forall([j], z3.Implies(z3.And(0 <= j, j < na), z3.Select(ea, j) == z3.Select(er, j)), patterns=[z3.Select(ea, j)]))
         return k(st, r)
 
     def list_repeat(self, a, b, st, k):
@@ -812,6 +814,8 @@ class Engine(object):
         for (dn, dexpr) in spec.defs:
             cx.extra[dn] = self.speceval.value(dexpr, cx)
         for (en, eexpr, _opts) in spec.ensures:
+            if (_opts or {}).get('needs'):
+                continue       # clause over the callee's own locals / ghosts: not visible to callers
             p.assume(self.speceval.formula(eexpr, cx))
             p.assume(*cx.side)
         p.env = caller_env
@@ -1067,7 +1071,18 @@ class Engine(object):
         ordinal = self.loop_ordinals.get(id(n))
         if ordinal is None:
             return None, None
-        return ordinal, self.cur_spec.loops.get(ordinal)
+        # contracts are attached by loop header text when given (robust against inserted loops),
+        # by source-order ordinal otherwise
+        hdr = loop_header(n)
+        for key, ls in self.cur_spec.loops.items():
+            if ls.header is not None and ls.header == hdr:
+                return key, ls
+        ls = self.cur_spec.loops.get(ordinal)
+        if ls is not None and ls.header is not None and ls.header != hdr:
+            heads = getattr(self, 'loop_headers', {})
+            if ls.header in heads.values():
+                ls = None      # that contract belongs to another loop of this function
+        return ordinal, ls
 
     def assigned_names(self, stmts):
         out = set()
@@ -1089,14 +1104,33 @@ class Engine(object):
         for (iname, iexpr) in (lspec.invariants if lspec else ()):
             f = self.speceval.formula(iexpr, ctx)
             st.assume(*ctx.side)
-            self.oblige('loop%d/%s/%s' % (ordinal, what, iname), st, f, line)
+            o = self.oblige('loop%d/%s/%s' % (ordinal, what, iname), st, f, line)
+            if what == 'inv_step' and iname in lspec.uses:
+                keep = lspec.uses[iname] | set([iname])
+                tags = getattr(st, 'inv_tags', {})
+                o.hyps = [h for h in o.hyps if not (h.get_id() in tags and tags[h.get_id()][0] == ordinal and tags[h.get_id()][1] not in keep)]
 
     def assume_invs(self, lspec, st, extra):
         ctx = SpecCtx(st, old=self.entry_state, extra=extra, entry=self.entry_state)
+        tags = dict(getattr(st, 'inv_tags', {}))
         for (iname, iexpr) in (lspec.invariants if lspec else ()):
             f = self.speceval.formula(iexpr, ctx)
             st.assume(f)
+            tags[f.get_id()] = (ordinal_of(lspec, self), iname)
             st.assume(*ctx.side)
+        st.inv_tags = tags
+
+    def loop_ghosts(self, lspec, st, extra):
+        """ghost values captured at loop entry (before the havoc); visible to the invariants of this
+        loop and, through st.ghost, to everything after"""
+        if lspec is None or not lspec.ghost:
+            return
+        ctx = SpecCtx(st, old=self.entry_state, extra=extra, entry=self.entry_state)
+        st.ghost = dict(st.ghost)
+        for gname, gexpr in lspec.ghost.items():
+            v = self.speceval.value(gexpr, ctx)
+            st.ghost[gname] = v
+            extra[gname] = v
 
     def havoc_locals(self, st, names):
         for nm in names:
@@ -1131,6 +1165,7 @@ class Engine(object):
         if ordinal is None:
             raise Unsupported('loop inside an inlined callee needs a contract for the callee (line %d)' % line)
         extra = {}
+        self.loop_ghosts(lspec, st, extra)
         self.check_invs('inv_entry', ordinal, lspec, st, extra, line)
         names = self.assigned_names(n.body)
         head = st
@@ -1178,6 +1213,14 @@ class Engine(object):
         def got(s, it):
             if it.ty.kind == 'tup':
                 items = it.items if it.items is not None else unpack(it.ty, it.t).items
+                if lspec is not None and lspec.invariants and not lspec.unroll and items:
+                    # cut at the invariant: element i of the tuple as an if-chain over the index
+                    def elem_at(s2, i):
+                        t = pack(items[-1])
+                        for q in reversed(range(len(items) - 1)):
+                            t = z3.If(i == q, pack(items[q]), t)
+                        return unpack(items[0].ty, t)
+                    return self.for_generic(n, s, k, ordinal, lspec, z3.IntVal(0), lambda s2, i: i < len(items), elem_at, {'_it': it})
                 return self.unroll_vals(n, items, s, k)
             if it.ty.kind == 'dict' or (it.ty.kind == 'ref' and self.ctab.dict_kv(it.ty.args[0])):
                 s.assume(*s.dict_key_axioms(it))
@@ -1235,6 +1278,7 @@ class Engine(object):
         if ordinal is None:
             raise Unsupported('loop inside an inlined callee needs a contract for the callee (line %d)' % line)
         iname = (lspec.index if lspec and lspec.index else '_i%d' % ordinal)
+        self.loop_ghosts(lspec, st, extra0)
         extra = dict(extra0)
         extra[iname] = SV(INT, start)
         self.check_invs('inv_entry', ordinal, lspec, st, extra, line)
@@ -1271,6 +1315,22 @@ class Engine(object):
             self.resolve_opt(s, v, bound)
 
         self.branch(head, in_range(head, i), enter, after, note='for%d' % ordinal)
+
+
+def loop_header(n):
+    try:
+        if isinstance(n, ast.For):
+            return 'for %s in %s' % (ast.unparse(n.target), ast.unparse(n.iter))
+        return 'while %s' % ast.unparse(n.test)
+    except Exception:
+        return None
+
+
+def ordinal_of(lspec, engine):
+    for o, l in engine.cur_spec.loops.items():
+        if l is lspec:
+            return o
+    return -1
 
 
 def st_is_top(engine):
